@@ -33,7 +33,14 @@ def gen_cases(seed, tier, n):
         rng = random.Random(seed * 7919 + i)
         if i < n_meta:
             # every third metamorphic case has a vocabulary beyond 127 symbols, different per rank (narrow local id types, wide global ids)
-            c = tracegen.gen_case(seed, i, tracegen.PROFILES["meta_bigvocab" if i % 3 == 2 else "meta"])
+            if i % 10 == 4:
+                # nine or ten ranks of different sizes: the process pool is sized from a memory estimate (more than 8 ranks)
+                from dataclasses import replace as _replace
+                c = tracegen.gen_case(seed, i, _replace(tracegen.PROFILES["meta"], name="meta+manyranks", n_ranks=(9, 10), tmax_choices=(12, 24, 40)))
+            else:
+                c = tracegen.gen_case(seed, i, tracegen.PROFILES["meta_bigvocab" if i % 3 == 2 else "meta"])
+            if i % 3 == 1:
+                tracegen.make_superset_rank(c, rng)     # a later rank whose vocabulary is the union of all ranks'
             c["kind"] = "meta"
             c["params"] = {"kind": "meta"}
             if i % 2 == 1:
